@@ -289,7 +289,10 @@ package keeper
 //@     $bal[modaddr("cfevesting")][$vestingDenom] == old($bal[modaddr("cfevesting")][$vestingDenom]) - withdrawn.Amount - amount
 //@     && $bal[fromBech32(toAddr)][$vestingDenom] == old($bal[fromBech32(toAddr)][$vestingDenom]) + amount
 //@   ensures returnedError == nil ==> withdrawn.Amount == sumWd(old($pIL[owner]), old($pS[owner]), old($pW[owner]), old($pLockEnd[owner]), $blockTime, old($pLen[owner]))
-//@   prop C08 C09 C05 C17 C20
+//@   // C12: x/auth's genesis validation rejects a continuous vesting account whose start time is not before its end time;
+//@   // an account created here must survive an export and re-import of the application state
+//@   ensures [auth-genesis-valid] returnedError == nil ==> $accStart[fromBech32(toAddr)] < $accEnd[fromBech32(toAddr)]
+//@   prop C08 C09 C05 C17 C20 C12
 //@ loop Keeper.SendToNewVestingAccount#1
 //@   invariant 0 <= \i && \i <= len(accVestingPools.VestingPools)
 //@   invariant lastNamed($pName[owner], vestingPoolName, \i) >= 0 ==> vestingPool == accVestingPools.VestingPools[lastNamed($pName[owner], vestingPoolName, \i)]
@@ -306,7 +309,8 @@ package keeper
 //@     (forall d: str :: {$bal[fromBech32(toAddress)][d]} $bal[fromBech32(toAddress)][d] == old($bal[fromBech32(toAddress)][d]) + amount[d])
 //@     && (forall d: str :: {$bal[fromBech32(fromAddress)][d]} $bal[fromBech32(fromAddress)][d] == old($bal[fromBech32(fromAddress)][d]) - amount[d])
 //@   ensures forall a: str :: {$bal[a]} a != fromBech32(fromAddress) && a != fromBech32(toAddress) ==> $bal[a] == old($bal[a])
-//@   prop C09 C08 C17 C20
+//@   ensures [auth-genesis-valid] err == nil ==> $accStart[fromBech32(toAddress)] < $accEnd[fromBech32(toAddress)]
+//@   prop C09 C08 C17 C20 C12
 //@
 //@ // ---- C07: the x/auth vesting schedule stays within the original vesting ----
 //@ // ratio of elapsed to total time as x/auth computes it (18 decimals, banker's rounding), for start < t < end
